@@ -7,8 +7,14 @@ package verifhook
 
 import (
 	"bytes"
+	"context"
+	"github.com/gokrazy/rsync/internal/anonssh"
+	"github.com/gokrazy/rsync/internal/maincmd"
+	"github.com/gokrazy/rsync/internal/rsyncdconfig"
+	"github.com/gokrazy/rsync/rsyncd"
 	"io"
 	"io/fs"
+	"net"
 	"os"
 	"strconv"
 	"time"
@@ -376,4 +382,27 @@ func RecvGenerator(dir string, o GenOpts, e FileEntry, touchUp bool) (wire []byt
 		}
 	}
 	return buf.Bytes(), nil
+}
+
+// ServeSSH runs the SSH listener exactly as the daemon entry point wires it
+// (internal/maincmd daemon mode, internal/rsynctest): authorizedKeysPath ""
+// selects an anonymous listener. It returns when ctx is cancelled.
+func ServeSSH(ctx context.Context, ln net.Listener, hostKeyPath, authorizedKeysPath string, modules []rsyncd.Module, stderr io.Writer) error {
+	osenv := &rsyncos.Env{Stdout: io.Discard, Stderr: stderr}
+	lc := rsyncdconfig.Listener{HostKeyPath: hostKeyPath}
+	if authorizedKeysPath == "" {
+		lc.AnonSSH = ln.Addr().String()
+	} else {
+		lc.AuthorizedSSH = rsyncdconfig.SSHListener{Address: ln.Addr().String(), AuthorizedKeys: authorizedKeysPath}
+	}
+	sshListener, err := anonssh.ListenerFromConfig(osenv, lc)
+	if err != nil {
+		return err
+	}
+	cfg := &rsyncdconfig.Config{Modules: modules}
+	return anonssh.Serve(ctx, osenv, ln, sshListener, cfg, func(args []string, stdin io.Reader, stdout io.Writer, stderr io.Writer) error {
+		osenv := &rsyncos.Env{Stdin: stdin, Stdout: stdout, Stderr: stderr, DontRestrict: true}
+		_, err := maincmd.Main(ctx, osenv, args, cfg)
+		return err
+	})
 }
